@@ -16,6 +16,7 @@ use serde_json::json;
 
 pub const SCRATCH: &str = "/verif/target/tmp-c17/scratch";
 const AUTORUN_CYCLES: usize = 37;
+const GENERATED_PROGRAMS: usize = 48;
 
 // ---------------------------------------------------------------------------------------------
 // reference command grammar (DESIGN.md §4 C17)
@@ -350,6 +351,7 @@ fn command_line() -> impl Strategy<Value = String> {
         2 => prop::sample::select(vec!["show memory", "show register", "show  memory", "show foo", "show"]).prop_map(|s| s.to_string()),
         3 => prop_oneof![Just("next".to_string()), (0u32..300).prop_map(|n| format!("next {}", n)), Just("next 5x".to_string()), Just("next  12".to_string())],
         4 => prop::sample::select(files).prop_map(|f| format!("load {}", f)),
+        3 => (0usize..GENERATED_PROGRAMS).prop_map(|k| format!("load g{:02}.asm", k)),
         1 => prop::sample::select(vec!["foo", "sett FC = 1", "FB = 1", "unset FC = 1", "set", "=", "FC", "FC =", "set J3", "loadx", "lo ad good.asm", "set TEMP", "é", "set I3 = 1"]).prop_map(|s| s.to_string()),
     ];
     (base, any::<u32>(), prop_oneof![3 => Just(0u8), 1 => Just(1u8), 1 => Just(2u8)], spacing(), prop_oneof![4 => Just("".to_string()), 1 => Just(" xyz".to_string()), 1 => Just("x".to_string()), 1 => Just(" = true".to_string())]).prop_map(|(b, mask, casing, lead, tail)| {
@@ -432,6 +434,22 @@ pub fn prepare_scratch() {
     let _ = std::fs::write(d.join("bad.asm"), "#! mrasm\n this is not a program\n");
     let _ = std::fs::write(d.join("nonutf8.asm"), [0x23u8, 0x21, 0x20, 0xFF, 0xFE, 0x0A]);
     let _ = std::fs::write(d.join("dir").join("inner.asm"), good2);
+    // generated accepted programs (every instruction shape, Unicode comments, long lines, .ORG/.DB/.DW
+    // layouts, images up to 240 bytes): `load gNN.asm` drives Tui::load_program and the program pane
+    // (ProgramDisplayState::from_bytecode + rendering) — the TUI part of C06's domain
+    {
+        use proptest::strategy::{Strategy, ValueTree};
+        let mut runner = h2a::engine::runner(0xC17_C06, 64);
+        let strat = h2a::textgen::spec_strategy(h2a::textgen::FITS);
+        for k in 0..GENERATED_PROGRAMS {
+            if let Ok(tree) = strat.new_tree(&mut runner) {
+                let spec = tree.current();
+                let (asm, _) = h2a::textgen::build(&spec, &h2a::textgen::FITS);
+                let text = h2a::textgen::render(&asm, spec.render_seed);
+                let _ = std::fs::write(d.join(format!("g{:02}.asm", k)), text);
+            }
+        }
+    }
     let _ = std::env::set_current_dir(d);
 }
 
